@@ -20,6 +20,12 @@ type Markers struct {
 	WithFF bool
 	// WithPos gives every marker token / node a distinct position.
 	WithPos bool
+	// Deep makes child markers two levels deep (a node with a child of its own), so
+	// that "presented but not descended into" is visible to a traversal check.
+	Deep bool
+	// BlockStmt fills child slots named "Stmt" with a brace-bearing statement list
+	// (marker braces, one marker statement) instead of a leaf.
+	BlockStmt bool
 }
 
 // OpenMark / CloseMark delimit marker texts in printer output.
@@ -52,7 +58,16 @@ func (m *Markers) Token() *token.Token {
 func (m *Markers) Leaf() ast.Vertex {
 	t := m.Token()
 	k := m.next()
-	return &ast.Identifier{Position: m.pos(k), IdentifierTkn: t, Value: t.Value}
+	leaf := &ast.Identifier{Position: m.pos(k), IdentifierTkn: t, Value: t.Value}
+	if m.Deep {
+		return &ast.ExprBrackets{Position: m.pos(m.next()), Expr: leaf}
+	}
+	return leaf
+}
+
+// Block returns a statement list with marker braces and one marker statement.
+func (m *Markers) Block() ast.Vertex {
+	return &ast.StmtStmtList{Position: m.pos(m.next()), OpenCurlyBracketTkn: m.Token(), Stmts: []ast.Vertex{m.Leaf()}, CloseCurlyBracketTkn: m.Token()}
 }
 
 // SlotFields lists the indices (into s.Fields) of the fields of the given classes.
@@ -95,7 +110,11 @@ func Build(s *astx.Schema, m *Markers, present func(i int) bool, listLen func(i 
 			}
 			rv.Field(f.Index).Set(reflect.ValueOf(l))
 		case astx.FChild:
-			rv.Field(f.Index).Set(reflect.ValueOf(m.Leaf()))
+			if m.BlockStmt && f.Name == "Stmt" {
+				rv.Field(f.Index).Set(reflect.ValueOf(m.Block()))
+			} else {
+				rv.Field(f.Index).Set(reflect.ValueOf(m.Leaf()))
+			}
 		case astx.FChildList:
 			k := listLen(i)
 			l := make([]ast.Vertex, k)
